@@ -35,6 +35,16 @@ def h_fixed(kind):
 def cells(tier, seed):
     q = tier == "quick"
     cs = [Cell(MF, "h_fixed", dict(kind="tzutc"), budget_s=60), Cell(MF, "h_fixed", dict(kind="tzoffset"), budget_s=60)]
+    # rule zones (tzstr / tzrange / tzlocal / tzical): the clean rule specs of C08, UTC-instant mode
+    from harness import c08, posixtz
+    specs = [s for s in c08.specs(tier) if not (s.get("dst") and (posixtz.rule_time(s["end"]) < posixtz.dstoff(s) - s["stdoff"] or posixtz.rule_time(s["start"]) >= 86400))]
+    for spec in (specs[:4] if q else specs):
+        for kind in ("tzstr", "tzrange", "tzlocal", "tzical:rrule"):
+            if kind.startswith("tzical") and not (spec.get("dst") and spec["start"][0] == "M" and spec["end"][0] == "M"):
+                continue
+            for y in ((2024,) if not kind.startswith("tzical") else (1972,)):
+                cs.append(Cell("harness.c08", "h_rule", dict(kind=kind, spec=spec, year=y, wallmode=False),
+                               name="%s[%s]@%d/utc" % (kind, posixtz.render(spec), y), budget_s=120, per_path_s=20, max_violations=50))
     for (n, p) in tzf.zone_list(tier, seed):
         cs.append(Cell(M, "h_utc", dict(name=n, path=p, clauses=["c04"]), name="utc[%s]" % n,
                        budget_s=150 if q else 600, per_path_s=20, max_violations=400))
@@ -46,7 +56,7 @@ ASSUMPTIONS = [
     "overriding every operation the tz code uses), validated against real datetime on each run; float total_seconds() rounding is not modelled",
     "UTC instant symbolic over [first transition - 10**6 s, last transition + 10**6 s] of each zone file (or +-10**6 s for files without transitions)",
     "quick tier: a fixed list of awkward zones plus 8 seeded ones; thorough: every distinct TZif file under /usr/share/zoneinfo",
-    "tzstr / tzrange / tzlocal / tzical zones are covered by the cells of C08 and C17 with the same clauses",
+    "rule zones: tzstr / tzrange / tzlocal (platform model) / tzical built from C08's rule specs (those without a recorded tzstr finding), instant over one year +-3 days; more rules and years in C08 / C17",
 ]
 OUTSIDE = ["sub-second instants", "Windows registry zones", "instants more than 10**6 s outside the file's transition table"]
 
